@@ -9,7 +9,7 @@ from ..core import Prop, Suite
 from ..coqlit import cbool, clist, cnat, copt, cpair, cstr
 from ..values import cspec
 
-KEYS = ['key', 'k2', '', 'é', '中😀', 'a/b', '{"x": 1}', 'key ', 'KEY', '../x', 'abcde']
+KEYS = ['key', 'k2', '', 'é', '中😀', 'a/b', '{"x": 1}', 'key ', 'KEY', '../x', 'abcde', 'caf\u00e9', 'cafe\u0301', '\u212b', '\u00c5']
 SUBS = [[], [], ['sub'], ['abcde'], ['sub', 'x'], ['0a1b2'], ['models/v1'], ['features/v1'], ['v1'], ['models', 'v1']]
 
 
